@@ -68,7 +68,7 @@ func readJSON(path string, v interface{}) {
 type popFlags struct {
 	seed                                                         int64
 	smallMax, smallSlice, smallSlices                            int
-	nrand, ndp, nctx, nexpr, nplanted, nfeat, nlong, nbig, nring, nopt int
+	nrand, ndp, nctx, nexpr, nplanted, nfeat, nlong, nbig, nring, nopt, nprobe, ntok int
 	corpus                                                       string
 	featctrl                                                     bool
 }
@@ -87,6 +87,8 @@ func (p *popFlags) register(fs *flag.FlagSet) {
 	fs.IntVar(&p.nlong, "nlong", 0, "grammars with long right-hand sides")
 	fs.IntVar(&p.nbig, "nbig", 0, "large grammars (100-300 states)")
 	fs.IntVar(&p.nring, "nring", 0, "mutually right-recursive rings (includes-SCCs)")
+	fs.IntVar(&p.nprobe, "nprobe", 0, "counter grammars whose empty rule relies on the zero default of $$")
+	fs.IntVar(&p.ntok, "ntok", 0, "token-declaration mixes (explicit / late / automatic numbers, literals)")
 	fs.IntVar(&p.nopt, "nopt", 0, "optional parts defined after use (nullable through later rules)")
 	fs.BoolVar(&p.featctrl, "featctrl", false, "surface-feature grammars may use tab / line feed as character literals")
 	fs.StringVar(&p.corpus, "corpus", "", "corpus directory")
@@ -117,6 +119,13 @@ func (p *popFlags) cases() []*Case {
 	for i := 0; i < p.nexpr; i++ {
 		res = append(res, GenExpr(r, fmt.Sprintf("expr-%d-%d", p.seed, i)))
 	}
+	for i := 0; i < p.ntok; i++ {
+		tc, _ := GenTokenMix(r, fmt.Sprintf("tokmix-%d-%d", p.seed, i))
+		res = append(res, tc)
+	}
+	for i := 0; i < p.nprobe; i++ {
+		res = append(res, GenSessionProbe(r, fmt.Sprintf("probe-%d-%d", p.seed, i)))
+	}
 	for i := 0; i < p.nopt; i++ {
 		res = append(res, GenOpts(r, fmt.Sprintf("opts-%d-%d", p.seed, i)))
 	}
@@ -124,7 +133,11 @@ func (p *popFlags) cases() []*Case {
 		res = append(res, GenRing(r, fmt.Sprintf("ring-%d-%d", p.seed, i)))
 	}
 	for i := 0; i < p.nbig; i++ {
-		res = append(res, GenBig(r, fmt.Sprintf("big-%d-%d", p.seed, i), []int{6, 3, 4, 7, 5}[i%5]))
+		if i%2 == 0 {
+			res = append(res, GenTrie(r, fmt.Sprintf("trie-%d-%d", p.seed, i)))
+		} else {
+			res = append(res, GenBig(r, fmt.Sprintf("big-%d-%d", p.seed, i), []int{6, 3, 4, 7, 5}[(i/2)%5]))
+		}
 	}
 	for i := 0; i < p.nlong; i++ {
 		res = append(res, GenLong(r, fmt.Sprintf("long-%d-%d", p.seed, i)))
@@ -192,6 +205,10 @@ func cmdObserve(args []string) {
 				if okIn && len(names) > 0 {
 					o.Extra = append(o.Extra, names)
 				}
+			}
+			// and one access string per state
+			for _, s := range accessStrings(c, o) {
+				o.Extra = append(o.Extra, s)
 			}
 		}
 		counts[o.Outcome]++
